@@ -488,7 +488,8 @@ def compile_ast(
                 # For UNION ALL (not distinct), just concat
                 df = pl.concat([df, right_df], how="vertical_relaxed")
 
-        # name_in_df and select remain the same (from left table)
+        # `select` remains the same (from the left table); the hidden columns are gone
+        name_in_df = {uid: name_in_df[uid] for uid in select}
 
     elif isinstance(nd, PolarsImpl):
         df = nd.df
